@@ -3,13 +3,26 @@
      the whole domain  and every x is a root,   or
      EmptySet          and no x is a root,      or
      a FiniteSet       whose members denote exactly the roots (for each alternative), or
-     a ConditionSet    and the degree is above 4.
-   See SolveSpec.sres_specK_unfold for the definition of sres_specK. *)
+     a ConditionSet    and the degree is above 4
+   (SolveSpec.sres_specK_unfold spells out sres_specK), in every field of characteristic 0 in
+   which the radicals used by the computation (solve_poly_radicals cs) satisfy their defining
+   relations.  Second form: radicals total.  solve_poly never fails. *)
 From Coq Require Import QArith List.
 From SE Require Import Base.Prelude C30.SolveModel C30.SolveProofs C30.SolveSpec.
 Import ListNotations.
 Theorem C30_solve_poly_exact :
+  forall (K : radfield) (cs : list Q) (s : sres),
+  (forall e, In e (solve_poly_radicals cs) -> rad_okK K e) ->
+  solve_poly cs = Ok s -> sres_specK K cs s.
+Proof. exact K_solve_poly_exact_local. Qed.
+Print Assumptions C30_solve_poly_exact.
+
+Theorem C30_solve_poly_exact_total :
   forall (K : radfield), radicals_total K ->
   forall (cs : list Q) (s : sres), solve_poly cs = Ok s -> sres_specK K cs s.
 Proof. exact K_solve_poly_exact. Qed.
-Print Assumptions C30_solve_poly_exact.
+Print Assumptions C30_solve_poly_exact_total.
+
+Theorem C30_solve_poly_never_fails : forall cs : list Q, exists s, solve_poly cs = Ok s.
+Proof. exact solve_poly_total. Qed.
+Print Assumptions C30_solve_poly_never_fails.
